@@ -98,6 +98,10 @@ def soft_cmp(a, b) -> str:
     return "same" if core.canon(a) == core.canon(b) else "differ"
 
 
+def canon_call(c) -> str:
+    return core.canon(c)
+
+
 def call(f, *a, **k):
     try:
         return f(*a, **k)
@@ -158,6 +162,8 @@ class C03(Prop):
             return gen_thermo.generate_late(rng, tier)
         if r < 0.42:    # texts outside the export format, compared with the model only
             return gen_thermo.generate_text(rng, tier)
+        if r < 0.52:    # several calls in one process on paths that are rewritten in between
+            return gen_thermo.generate_history(rng, tier)
         return gen_thermo.generate(rng, tier)
 
     def targeted(self, tier):
@@ -203,6 +209,21 @@ class C03(Prop):
         for lay, eds in (("rows", gen_thermo.TEXT_EDITS_ROWS + gen_thermo.TEXT_EDITS_ROWS_SOFT), ("cols", gen_thermo.TEXT_EDITS_COLS)):
             for e in eds:
                 yield gen_thermo.generate_text(random.Random(f"C03-text-{lay}-{e}"), tier, layout=lay, edits=[e])
+        # histories: the same path holds a rows export, then a columns export, then a text that is no export (and the reverse,
+        # and the other delimiter / decimal mark), written so that the modification time stays / moves / is stamped anew;
+        # sniff -> load -> readers on each; the same file twice; two paths in turn
+        for how in ("keep", "replace-keep", "natural", "bump"):
+            for order in (("rows", "cols", "other", "rows"), ("cols", "rows", "other-same-size", "cols"), ("other", "rows", "cols", "same"),
+                          ("rows", "rows", "cols", "cols")):
+                rng = random.Random(f"C03-history-{how}-{order}")
+                script = [{"path": 0, "what": w, "acq": q, "how": how, "calls": cs, "mutate": q == 1}
+                          for q, (w, cs) in enumerate(zip(order, (["sniff", "load"], ["sniff", "load", "data", "params"], ["load", "sniff"], ["load", "load"])))]
+                yield gen_thermo.generate_history(rng, tier, script=script)
+        for order in (("rows", "cols"), ("cols", "other"), ("other", "rows")):
+            rng = random.Random(f"C03-history-alternate-{order}")
+            script = [{"path": q % 2, "what": order[q % 2] if q < 2 else (None if q < 4 else order[(q + 1) % 2]), "acq": q % 2, "how": "keep",
+                       "calls": ["sniff", "load"], "mutate": False} for q in range(6)]
+            yield gen_thermo.generate_history(rng, tier, script=script)
         for lines in ([], [""], ["A,B"], ["1,2", "3,4"], ["x", "MainRuns,0,A,Counter,1,"], ["a", "b", "c"],
                       ["a", "MainRuns", "c", "MainRuns"]):
             for final in (True, False):
@@ -231,6 +252,8 @@ class C03(Prop):
             return outcome(impl, rep["model"], impl, hyp=False, features=feats + ["mentions-MainRuns"])
         if case["kind"] == "text":
             return self.evaluate_text(case, ctx, d)
+        if case["kind"] == "history":
+            return self.evaluate_history(case, ctx, d)
         a = case["acq"]
         delim, comma = case["delimiter"], case["decimal"] == ","
         trows, tcols = gen_thermo.table_rows(a), gen_thermo.table_cols(a)
@@ -443,6 +466,217 @@ class C03(Prop):
         return outcome(impl, impl, impl, hyp=False, features=feats,
                        note=("pewlib and the model differ in whether they import: " + ", ".join(skipped)) if skipped else "")
 
+
+    def evaluate_history(self, case, ctx, d):
+        """several calls in one process on one or two paths that are written again in between (other layout, other
+        delimiter / decimal mark, a text that is no export; modification time kept, stamped by the file system or moved on).
+        The driver gets what was exported where and when (`c03.history`): its model reads the text the path holds at the time
+        of each call, its specification judges each call by what was last exported to the path."""
+        import os
+        import shutil
+
+        from pewlib.io import thermo
+
+        contents, steps = case["contents"], case["steps"]
+        stage = d / "stage"
+        stage.mkdir()
+        toks = set()
+        jcont, decoded = [], []
+        for i, c in enumerate(contents):
+            f = stage / f"c{i}.csv"
+            if c["kind"] == "other":
+                body = c["eol"].join(c["lines"]) + (c["eol"] if c["final_eol"] and c["lines"] else "")
+                f.write_bytes((b"\xef\xbb\xbf" if c["bom"] else b"") + body.encode("utf-8"))
+            else:
+                a = c["acq"]
+                gen_thermo.write(f, gen_thermo.table_rows(a) if c["kind"] == "rows" else gen_thermo.table_cols(a), c["delimiter"], c["eol"], c["bom"])
+                toks |= {t for ps in a["tokens"] for pe in ps for pc in pe for t in pc}
+            with f.open("r", encoding="utf-8-sig") as fp:   # codec and universal newlines: Python's, not pewlib's
+                decoded.append(list(fp))
+            if c["kind"] == "other":
+                jcont.append({"kind": "other", "lines": decoded[-1]})
+            else:
+                a = c["acq"]
+                jcont.append({"kind": c["kind"], "delimiter": c["delimiter"], "comma": c["decimal"] == ",", "samples": a["samples"],
+                              "nscans": a["nscans"], "elements": a["elements"], "channels": a["channels"], "tokens": a["tokens"]})
+        table = {}
+        for t in sorted(toks):
+            table[t] = core.orat(gen_thermo.value_of(t))
+            table[t.replace(",", ".")] = core.orat(gen_thermo.value_of(t.replace(",", ".")))
+        # the events: a call on a path that was never written (only a shrinker gets there) is left out
+        events, plan = [], []
+        cur, label, fresh = {}, {}, 0
+        for q, st in enumerate(steps):
+            p, w = st["path"], st["write"]
+            if w is not None:
+                if not (0 <= w < len(contents)):
+                    raise InternalError("history: content index out of range")
+                first = p not in cur
+                how = "natural" if first else st["how"]
+                if how not in ("keep", "replace-keep"):
+                    fresh += 1
+                    label[p] = fresh
+                events.append({"path": p, "write": w, "mtime": label[p]})
+                plan.append(("write", p, w, how, cur.get(p)))
+                cur[p] = w
+            if p not in cur:
+                continue
+            for ci, c in enumerate(st["calls"]):
+                k = contents[cur[p]]
+                if c["fn"] != "sniff":
+                    if k["kind"] == "other":
+                        continue            # load / readers on a text that is no export: the property is silent
+                    if c["fn"] in ("data", "params") and (c["rows"] != (k["kind"] == "rows") or c["comma"] != (k["decimal"] == ",")
+                                                          or c["delimiter"] not in (None, k["delimiter"])):
+                        continue            # a reader for another kind of file (a shrinker removed the write): silent
+                events.append({"path": p, "call": c})
+                plan.append(("call", p, c, f"{q}.{ci}.{c['fn']}", st["mutate"], cur[p]))
+        rep = ctx.driver.call("c03.history", contents=jcont, events=events, parse=[[k, v] for k, v in table.items()])
+        for i, c in enumerate(contents):
+            if rep["texts"][i] != decoded[i]:
+                raise InternalError("the file written and the text rendered by the Lean model disagree")
+        results = list(rep["results"])
+        impl, model, spec = {}, {}, {}
+        und = False
+        feats = {"history", f"history:steps:{min(len(steps), 6)}{'+' if len(steps) >= 6 else ''}"}
+        paths = {p: d / f"export{p}.csv" for p in (0, 1, 2, 3)}
+        sniffed = {}          # path -> layout names a call has seen there (what a stale answer could come from)
+
+        def kindname(i):
+            return contents[i]["kind"]
+
+        def run_call(c, path):
+            if c["fn"] == "sniff":
+                r = call(thermo.icap_csv_sample_format, path)
+                return (dict(ERR) if isinstance(r, Exception) else str(r)), r
+            if c["fn"] == "load":
+                r = call(thermo.load, path, use_analog=c["use_analog"], full=c["full"])
+                if isinstance(r, Exception):
+                    return dict(ERR), r
+                if c["full"]:
+                    if not (isinstance(r, tuple) and len(r) == 2):
+                        return {"bad_return": type(r).__name__}, r
+                    return {"image": img_impl(r[0]), "params": params_impl(r[1])}, r
+                if isinstance(r, tuple):
+                    return {"bad_return": "tuple"}, r
+                return {"image": img_impl(r)}, r
+            rows = c["rows"]
+            if c["fn"] == "data":
+                f = thermo.icap_csv_rows_read_data if rows else thermo.icap_csv_columns_read_data
+                r = call(f, path, delimiter=c["delimiter"], comma_decimal=c["comma"], use_analog=c["use_analog"])
+                return (dict(ERR) if isinstance(r, Exception) else img_impl(r)), r
+            f = thermo.icap_csv_rows_read_params if rows else thermo.icap_csv_columns_read_params
+            r = call(f, path, delimiter=c["delimiter"], comma_decimal=c["comma"])
+            return (dict(ERR) if isinstance(r, Exception) else params_impl(r)), r
+
+        def scrub(r):
+            """the caller edits what it was handed (its own arrays): a later import must not see that"""
+            import numpy as np
+
+            for v in (r if isinstance(r, tuple) else (r,)):
+                if isinstance(v, np.ndarray) and v.dtype.names:
+                    for nm in v.dtype.names:
+                        v[nm] = -7.0
+                elif isinstance(v, dict):
+                    for vv in v.values():
+                        if isinstance(vv, np.ndarray):
+                            vv[...] = -7.0
+                    v["scantime"] = -7.0
+
+        def driver_out(c, j):
+            if j is None:
+                return None, False
+            if c["fn"] == "sniff":
+                return j, False
+            if c["fn"] == "load":
+                if "raises" in j:
+                    return dict(ERR), False
+                o, u = {"image": img_driver(j["image"])}, False
+                if "params" in j:
+                    o["params"], u = params_driver(j["params"])
+                return o, u
+            if c["fn"] == "data":
+                return img_driver(j), False
+            return params_driver(j)
+
+        with warnings.catch_warnings():
+            warnings.simplefilter("ignore")
+            logging.disable(logging.WARNING)
+            try:
+                for item in plan:
+                    if item[0] == "write":
+                        _, p, w, how, before = item
+                        path = paths[p]
+                        src = stage / f"c{w}.csv"
+                        old = os.stat(path) if path.exists() else None
+                        if how == "replace-keep":
+                            tmp = d / "incoming.csv"
+                            shutil.copyfile(src, tmp)
+                            os.utime(tmp, ns=(old.st_atime_ns, old.st_mtime_ns))
+                            os.replace(tmp, path)
+                        else:
+                            shutil.copyfile(src, path)
+                            if how == "keep":
+                                os.utime(path, ns=(old.st_atime_ns, old.st_mtime_ns))
+                            elif how == "bump" and old is not None:
+                                os.utime(path, ns=(old.st_atime_ns, old.st_mtime_ns + 10 ** 9))
+                        if before is not None:
+                            a, b = kindname(before), kindname(w)
+                            kept = how in ("keep", "replace-keep")
+                            if before == w or contents[before] == contents[w]:
+                                feats.add("history:rewrite:same-content")
+                            else:
+                                feats.add(f"history:rewrite:{a}->{b}")
+                                if a == b and a != "other" and (contents[before]["delimiter"], contents[before]["decimal"]) != (contents[w]["delimiter"], contents[w]["decimal"]):
+                                    feats.add("history:rewrite:other-delimiter-or-decimal")
+                                if a != b and a in sniffed.get(p, ()):
+                                    feats.add("history:stale-answer-possible:" + ("mtime-kept" if kept else "mtime-" + how))
+                                if gen_thermo.content_size(contents[before]) == gen_thermo.content_size(contents[w]) and kept:
+                                    feats.add("history:rewrite:same-size-same-mtime")
+                            feats.add(f"history:write:{how}")
+                        continue
+                    _, p, c, key, mutate, at = item
+                    j = results.pop(0)
+                    as_str = (len(impl) % 3) == 2      # the path as a str instead of a Path, every third call
+                    got, raw = run_call(c, str(paths[p]) if as_str else paths[p])
+                    impl[key] = got
+                    model[key], u1 = driver_out(c, j["model"])
+                    sp, u2 = driver_out(c, j["spec"])
+                    und = und or u1 or u2
+                    if sp is None:      # a channel that was not exported: the property is silent, the model says the call raises
+                        spec[key] = got
+                        feats.add("channel-not-exported")
+                    else:
+                        spec[key] = sp
+                    if c["fn"] in ("sniff", "load"):
+                        sniffed.setdefault(p, set()).add(kindname(at))
+                    feats.add(f"history:call:{c['fn']}" + (":full=False" if c["fn"] == "load" and not c["full"] else ""))
+                    if mutate and not isinstance(raw, (Exception, str)):
+                        scrub(raw)
+                        feats.add("history:caller-edits-result")
+            finally:
+                logging.disable(logging.NOTSET)
+        if results:
+            raise InternalError("history: calls and results out of step")
+        seen = {}
+        for item in plan:
+            if item[0] == "call":
+                k = (item[1], item[5], canon_call(item[2]))
+                seen[k] = seen.get(k, 0) + 1
+        if any(v > 1 for v in seen.values()):
+            feats.add("history:same-call-twice-on-one-file")
+        if len({item[1] for item in plan}) > 1:
+            feats.add("history:two-paths")
+        if und:
+            feats.add("scantime-near-rounding-tie")
+            for r in (impl, model, spec):
+                for v in r.values():
+                    if isinstance(v, dict):
+                        for pd in (v, v.get("params") if isinstance(v.get("params"), dict) else None):
+                            if pd and "scantime" in pd:
+                                pd["scantime"] = "~"
+        return outcome(impl, model, spec, features=feats)
+
     def shrink(self, case):
         if case["kind"] == "sniff_other":
             ls = case["lines"]
@@ -450,6 +684,19 @@ class C03(Prop):
                 yield {**case, "lines": ls[:i] + ls[i + 1:]}
             return
         if case["kind"] == "text":      # compared with the model only: never shrunk towards another text
+            return
+        if case["kind"] == "history":
+            st = case["steps"]
+            for i in range(len(st)):
+                if len(st) > 1:
+                    yield {**case, "steps": st[:i] + st[i + 1:]}
+            for i in range(len(st)):
+                cs = st[i]["calls"]
+                for j in range(len(cs)):
+                    if len(cs) > 1:
+                        yield {**case, "steps": st[:i] + [{**st[i], "calls": cs[:j] + cs[j + 1:]}] + st[i + 1:]}
+                if st[i]["mutate"]:
+                    yield {**case, "steps": st[:i] + [{**st[i], "mutate": False}] + st[i + 1:]}
             return
         a = case["acq"]
         n, m, k, C = len(a["samples"]), a["nscans"], len(a["elements"]), len(a["channels"])
